@@ -1,7 +1,18 @@
 From Coq Require Import ZArith List Bool Lia.
-From GoCoap Require Import Base.Bytes NoResp.Model Dedup.Model.
+From GoCoap Require Import Base.Bytes NoResp.Model Gen.DedupConsts Dedup.Model.
+From GoCoap Require Dedup.Spec.
 Import ListNotations.
 Open Scope Z_scope.
+
+(* ---------- the generated lifetime is the RFC's ---------- *)
+
+(* udp/client.ExchangeLifetime (Gen/DedupConsts.v, regenerated from the source on every check) is the
+   247 s that the specification is written with; an edit of the constant breaks this proof *)
+Theorem lifetime_is_rfc : LIFETIME = Spec.SPEC_LIFETIME /\ ExchangeLifetime = Spec.SPEC_LIFETIME * 1000000.
+Proof. split; reflexivity. Qed.
+
+Lemma lifetime_nonneg : 0 <= LIFETIME.
+Proof. destruct lifetime_is_rfc as [-> _]. unfold Spec.SPEC_LIFETIME. lia. Qed.
 
 (* ---------- histories ---------- *)
 
@@ -82,6 +93,52 @@ Proof.
     + auto.
 Qed.
 
+(* ---------- the handler / processResponse piece ---------- *)
+
+Lemma plain_not_special tok ro b h : plain_beh b = true -> handler_result tok ro b = Some h -> is_special h = false.
+Proof.
+  destruct b as [|c o p|c t o p|]; cbn [plain_beh handler_result]; intros Hp Hh; try discriminate.
+  - destruct (rw_refuses ro c); [discriminate|]. injection Hh as <-. unfold is_special; cbn.
+    destruct (c =? 0); [discriminate|reflexivity].
+  - injection Hh as <-. unfold is_special; cbn. destruct (c =? 0); [discriminate|reflexivity].
+Qed.
+
+Lemma req_store_cases mid h c : req_store mid h c = c \/ exists r, req_store mid h c = cache_store c mid r.
+Proof.
+  unfold req_store, store_reply. destruct (hd_store h); [|left; reflexivity].
+  destruct (hd_reply h) as [r|]; [right; exists r; reflexivity|left; reflexivity].
+Qed.
+
+(* only confirmable and non-confirmable requests ever store *)
+Lemma handle_store_cacheable typ mid tok ro b own1 :
+  hd_store (req_handle typ mid tok ro b own1) = true -> is_cacheable_typ typ = true.
+Proof.
+  unfold req_handle, is_cacheable_typ.
+  destruct (handler_result tok ro b) as [h|]; [destruct (is_special h)|];
+    destruct (typ =? CON); cbn [hd_store orb]; auto; discriminate.
+Qed.
+
+Lemma req_store_noncacheable typ mid tok ro b own1 c :
+  is_cacheable_typ typ = false -> req_store mid (req_handle typ mid tok ro b own1) c = c.
+Proof.
+  intros Ct. unfold req_store, store_reply.
+  destruct (hd_store (req_handle typ mid tok ro b own1)) eqn:E; [|reflexivity].
+  apply handle_store_cacheable in E. congruence.
+Qed.
+
+(* a confirmable request always leaves a reply, and every reply to a cacheable request is stored *)
+Lemma handle_stores typ mid tok ro b own1 :
+  is_cacheable_typ typ = true ->
+  (typ = CON \/ hd_reply (req_handle typ mid tok ro b own1) <> None) ->
+  exists r, hd_reply (req_handle typ mid tok ro b own1) = Some r /\ hd_store (req_handle typ mid tok ro b own1) = true.
+Proof.
+  unfold req_handle, is_cacheable_typ. intros Ct Hc.
+  destruct (handler_result tok ro b) as [h|]; [destruct (is_special h)|];
+    destruct (typ =? CON) eqn:E; cbn [orb] in Ct; cbn [hd_reply hd_store] in *; try rewrite Ct;
+    try (eexists; split; reflexivity).
+  destruct Hc as [->|Hc]; [discriminate|contradiction].
+Qed.
+
 (* ---------- a stored reply persists, unchanged, while it is valid ---------- *)
 
 Definition is_req_on (m : Z) (e : ev) : bool :=
@@ -92,24 +149,22 @@ Lemma step_keeps_entry s e m en :
   lookup (cache (fst (step s e))) m = Some {| e_reply := e_reply en; e_left := e_left en - age_of e |}.
 Proof.
   intros L Ha Hl. destruct en as [r l]. cbn [e_reply e_left] in *.
-  destruct e as [typ mid tok code ro b | ms | ]; cbn [age_of] in *.
+  destruct e as [typ mid tok code ro b | ms | | typ mid | mid | typ tok code o p]; cbn [age_of] in *.
   - (* Req *) rewrite Z.sub_0_r in *.
     cbn [step]. destruct (Z.eqb_spec mid m) as [->|Hne].
     + (* same message ID: either a hit (cache untouched) or a type that never stores *)
-      destruct (is_cacheable_typ typ) eqn:Ct.
+      unfold req_lookup. destruct (is_cacheable_typ typ) eqn:Ct.
       * rewrite (cache_load_of_lookup _ _ _ L) by (cbn [e_left]; lia). cbn [fst cache]. exact L.
-      * unfold is_cacheable_typ in Ct. apply orb_false_elim in Ct as [C1 C2]. rewrite C1.
-        destruct (handler_result ro b) as [[[rc ro'] rp]|]; cbn [fst cache]; [rewrite C2|]; exact L.
-    + assert (Hk : forall r0, lookup (cache_store (cache s) mid r0) m = Some {| e_reply := r; e_left := l |}).
-      { intros r0. rewrite lookup_store_other by congruence. exact L. }
-      destruct (if is_cacheable_typ typ then cache_load (cache s) mid else None) as [en0|].
-      * cbn [fst cache]. exact L.
-      * destruct (handler_result ro b) as [[[rc ro'] rp]|].
-        -- destruct (typ =? CON); cbn [fst cache]; [apply Hk|]. destruct (typ =? NON); [apply Hk|exact L].
-        -- destruct (typ =? CON); cbn [fst cache]; [apply Hk|exact L].
+      * cbn [fst cache]. rewrite req_store_noncacheable by exact Ct. exact L.
+    + destruct (req_lookup typ mid (cache s)) as [en0|]; cbn [fst cache]; [exact L|].
+      destruct (req_store_cases mid (req_handle typ mid tok ro b (req_check typ mid (own s))) (cache s)) as [->|[r0 ->]];
+        [exact L|]. rewrite lookup_store_other by congruence. exact L.
   - (* Age *) cbn [step fst cache]. rewrite lookup_age, L. reflexivity.
   - (* Tick *) rewrite Z.sub_0_r in *. cbn [step fst cache].
     apply lookup_tick_keep; [exact L|]. unfold expired; cbn [e_left]. apply Z.ltb_ge. lia.
+  - (* Drop *) rewrite Z.sub_0_r. exact L.
+  - (* Ping *) rewrite Z.sub_0_r. exact L.
+  - (* Send *) rewrite Z.sub_0_r. exact L.
 Qed.
 
 Lemma run_keeps_entry evs : forall s m en,
@@ -136,17 +191,15 @@ Lemma first_copy_stores s typ mid tok code ro b s1 o1 :
   is_cacheable_typ typ = true -> o_called o1 = true -> (typ = CON \/ o_out o1 <> []) ->
   exists r1, o_out o1 = [r1] /\ lookup (cache s1) mid = Some {| e_reply := r1; e_left := LIFETIME |}.
 Proof.
-  intros St Ct Cal Hc. cbn [step] in St. rewrite Ct in St.
+  intros St Ct Cal Hc. cbn [step] in St. unfold req_lookup in St. rewrite Ct in St.
   destruct (cache_load (cache s) mid) as [en|] eqn:Ld.
   - injection St as <- <-. cbn in Cal. discriminate.
-  - destruct (handler_result ro b) as [[[rc ro'] rp]|].
-    + destruct (typ =? CON) eqn:E.
-      * injection St as <- <-. eexists; split; [reflexivity|]. cbn [cache]. apply lookup_store_same_miss; exact Ld.
-      * unfold is_cacheable_typ in Ct. rewrite E in Ct. cbn [orb] in Ct. rewrite Ct in St.
-        injection St as <- <-. eexists; split; [reflexivity|]. cbn [cache]. apply lookup_store_same_miss; exact Ld.
-    + destruct (typ =? CON) eqn:E.
-      * injection St as <- <-. eexists; split; [reflexivity|]. cbn [cache]. apply lookup_store_same_miss; exact Ld.
-      * injection St as <- <-. cbn [o_out] in Hc. destruct Hc as [->|Hc]; [discriminate|contradiction].
+  - injection St as <- <-. set (h := req_handle typ mid tok ro b (req_check typ mid (own s))) in *.
+    assert (Hc' : typ = CON \/ hd_reply h <> None).
+    { destruct Hc as [Hc|Hc]; [left; exact Hc|right]. intros E. apply Hc. cbn [obs_of_reply o_out]. rewrite E. reflexivity. }
+    destruct (handle_stores typ mid tok ro b _ Ct Hc') as [r [Hr Hs]]. fold h in Hr, Hs.
+    exists r. cbn [obs_of_reply o_out cache]. rewrite Hr. split; [reflexivity|].
+    unfold req_store, store_reply. rewrite Hs, Hr. apply lookup_store_same_miss; exact Ld.
 Qed.
 
 (* ---------- a copy that finds a valid entry is answered from it, handler not called ---------- *)
@@ -158,8 +211,9 @@ Lemma duplicate_hits s typ mid tok code ro b en :
   exists r, o_out o = [r] /\ same_content r (e_reply en) /\ w_mid r = mid /\
             w_typ r = (if typ =? CON then ACK else NON).
 Proof.
-  intros L Hl Ct. cbn [step]. rewrite Ct. rewrite (cache_load_of_lookup _ _ _ L Hl). cbn [snd o_called o_out].
-  split; [reflexivity|]. eexists; split; [reflexivity|]. unfold same_content; cbn. repeat split; reflexivity.
+  intros L Hl Ct. cbn [step]. unfold req_lookup. rewrite Ct. rewrite (cache_load_of_lookup _ _ _ L Hl).
+  cbn [snd obs_of_reply o_called o_out].
+  split; [reflexivity|]. eexists; split; [reflexivity|]. unfold same_content, retarget; cbn. repeat split; reflexivity.
 Qed.
 
 (* C05, clause 1 and 2: once per lifetime, same reply *)
@@ -179,6 +233,88 @@ Proof.
   specialize (L2 ltac:(lia)).
   pose proof (duplicate_hits (final s1 evs) typ2 mid tok2 code2 ro2 b2 _ L2 ltac:(cbn [e_left]; lia) Ct2) as [Hc2 [r2 [Ho2 [Hs [Hm Ht]]]]].
   cbv zeta. split; [exact Hc2|]. exists r1, r2. cbn [e_reply] in Hs. repeat split; try assumption; apply Hs.
+Qed.
+
+(* a reply was produced: for a request that is not confirmable this is what makes it cacheable *)
+Lemma replied_has_reply typ mid tok ro b own1 :
+  handler_result tok ro b <> None -> hd_reply (req_handle typ mid tok ro b own1) <> None.
+Proof.
+  unfold req_handle. destruct (handler_result tok ro b) as [h|]; [|contradiction]. intros _.
+  destruct (is_special h); destruct (typ =? CON); cbn [hd_reply]; discriminate.
+Qed.
+
+(* [dedup_once] with the cacheability condition stated on the handler: whatever the handler set -- a response, a
+   replaced message, a Reset, an Empty code -- the request is handled once *)
+Theorem dedup_once_replied : forall s typ mid tok code ro b s1 o1 evs typ2 tok2 code2 ro2 b2,
+  step s (Req typ mid tok code ro b) = (s1, o1) ->
+  is_cacheable_typ typ = true -> o_called o1 = true -> (typ = CON \/ handler_result tok ro b <> None) ->
+  ages_ok evs -> total_age evs <= LIFETIME ->
+  is_cacheable_typ typ2 = true ->
+  let o2 := snd (step (final s1 evs) (Req typ2 mid tok2 code2 ro2 b2)) in
+  o_called o2 = false /\
+  exists r1 r2, o_out o1 = [r1] /\ o_out o2 = [r2] /\ same_content r2 r1 /\ w_mid r2 = mid /\
+                w_typ r2 = (if typ2 =? CON then ACK else NON).
+Proof.
+  intros s typ mid tok code ro b s1 o1 evs typ2 tok2 code2 ro2 b2 St Ct Cal Hr Ha Hage Ct2.
+  apply (dedup_once s typ mid tok code ro b s1 o1 evs typ2 tok2 code2 ro2 b2 St Ct Cal); try assumption.
+  destruct Hr as [Hr|Hr]; [left; exact Hr|right].
+  cbn [step] in St. destruct (req_lookup typ mid (cache s)); injection St as _ <-; [cbn in Cal; discriminate|].
+  cbn [obs_of_reply o_out]. pose proof (replied_has_reply typ mid tok ro b (req_check typ mid (own s)) Hr) as Hn.
+  destruct (hd_reply _); [discriminate|contradiction].
+Qed.
+
+(* separate response: the handler of a confirmable request sets nothing; the request is acknowledged with a bare
+   ACK, which is what every copy gets for the lifetime -- whatever happens in between, in particular the
+   application sending the response itself ([Send]) *)
+Theorem separate_response : forall s mid tok code ro b s1 o1 evs tok2 code2 ro2 b2,
+  step s (Req CON mid tok code ro b) = (s1, o1) -> o_called o1 = true -> handler_result tok ro b = None ->
+  ages_ok evs -> total_age evs <= LIFETIME ->
+  let o2 := snd (step (final s1 evs) (Req CON mid tok2 code2 ro2 b2)) in
+  o_out o1 = [bare_ack mid] /\ o_called o2 = false /\ o_out o2 = [bare_ack mid].
+Proof.
+  intros s mid tok code ro b s1 o1 evs tok2 code2 ro2 b2 St Cal Hn Ha Hage.
+  assert (Ho1 : o_out o1 = [bare_ack mid]).
+  { cbn [step] in St. destruct (req_lookup CON mid (cache s)); injection St as _ <-; [cbn in Cal; discriminate|].
+    unfold req_handle. rewrite Hn. reflexivity. }
+  pose proof (dedup_once s CON mid tok code ro b s1 o1 evs CON tok2 code2 ro2 b2 St eq_refl Cal (or_introl eq_refl) Ha Hage eq_refl)
+    as [Hc2 [r1 [r2 [E1 [E2 [[Sc [Stk [So Sp]]] [Hm Ht]]]]]]].
+  cbv zeta. split; [exact Ho1|]. split; [exact Hc2|]. rewrite E2. rewrite Ho1 in E1. injection E1 as <-.
+  destruct r2 as [t c i k o p]. cbn in *. subst. reflexivity.
+Qed.
+
+(* what the application sends on its own never touches the response cache or the handler *)
+Theorem send_is_emission : forall s typ tok code opts pay,
+  cache (fst (step s (Send typ tok code opts pay))) = cache s /\
+  o_called (snd (step s (Send typ tok code opts pay))) = false /\
+  exists r, o_out (snd (step s (Send typ tok code opts pay))) = [r] /\
+            w_typ r = typ /\ w_code r = code /\ w_tok r = tok /\ w_opts r = opts /\ w_pay r = pay.
+Proof. intros. cbn. split; [reflexivity|]. split; [reflexivity|]. eexists. repeat split. Qed.
+
+(* a message withheld by the request monitor: no handler, nothing on the wire, nothing cached -- the next copy is
+   treated exactly as if the withheld one had not arrived *)
+Theorem drop_unseen : forall s typ mid,
+  cache (fst (step s (Drop typ mid))) = cache s /\ snd (step s (Drop typ mid)) = {| o_called := false; o_out := [] |}.
+Proof. intros. cbn. split; reflexivity. Qed.
+
+(* a ping is answered with a Reset carrying its message ID; the handler never sees it and nothing is cached *)
+Theorem ping_unseen : forall s mid,
+  cache (fst (step s (Ping mid))) = cache s /\ o_called (snd (step s (Ping mid))) = false /\
+  o_out (snd (step s (Ping mid))) = [{| w_typ := RST; w_code := 0; w_mid := mid; w_tok := []; w_opts := []; w_pay := [] |}].
+Proof. intros. cbn. repeat split. Qed.
+
+(* a handler that replaces the response message: the reply is that message (its own token, no No-Response check),
+   acknowledging a confirmable request / with an own message ID otherwise *)
+Theorem set_message_reply : forall s typ mid tok code ro rc tok' o p,
+  req_lookup typ mid (cache s) = None ->
+  let ob := snd (step s (Req typ mid tok code ro (BMsg rc tok' o p))) in
+  o_called ob = true /\
+  exists r, o_out ob = [r] /\ w_code r = rc /\ w_tok r = tok' /\ w_opts r = o /\ w_pay r = p /\
+            (typ = CON -> w_typ r = ACK /\ w_mid r = mid).
+Proof.
+  intros s typ mid tok code ro rc tok' o p Hl. cbn [step]. rewrite Hl. cbn [snd obs_of_reply o_called o_out].
+  split; [reflexivity|]. unfold req_handle. cbn [handler_result].
+  destruct (is_special _); destruct (typ =? CON) eqn:E; cbn [hd_reply]; eexists; (split; [reflexivity|]); cbn;
+    repeat split; try reflexivity; subst typ; vm_compute in E; discriminate.
 Qed.
 
 (* ---------- freshness after the lifetime ---------- *)
@@ -215,13 +351,12 @@ Lemma step_bounded s e m B :
   bounded m B (cache s) -> is_req_on m e = false -> age_ok e ->
   bounded m (B - age_of e) (cache (fst (step s e))).
 Proof.
-  intros Hb Hr Ha. destruct e as [typ mid tok code ro b | ms | ]; cbn [age_of] in *.
+  intros Hb Hr Ha. destruct e as [typ mid tok code ro b | ms | | typ mid | mid | typ tok code o p]; cbn [age_of] in *;
+    try (rewrite Z.sub_0_r; exact Hb).
   - rewrite Z.sub_0_r. cbn [is_req_on] in Hr. apply Z.eqb_neq in Hr. cbn [step].
-    destruct (if is_cacheable_typ typ then cache_load (cache s) mid else None) as [en0|]; [exact Hb|].
-    destruct (handler_result ro b) as [[[rc ro'] rp]|].
-    + destruct (typ =? CON); cbn [fst cache]; [apply bounded_store_other; assumption|].
-      destruct (typ =? NON); [apply bounded_store_other; assumption|exact Hb].
-    + destruct (typ =? CON); cbn [fst cache]; [apply bounded_store_other; assumption|exact Hb].
+    destruct (req_lookup typ mid (cache s)) as [en0|]; cbn [fst cache]; [exact Hb|].
+    destruct (req_store_cases mid (req_handle typ mid tok ro b (req_check typ mid (own s))) (cache s)) as [->|[r0 ->]];
+      [exact Hb|apply bounded_store_other; assumption].
   - cbn [step fst cache]. unfold bounded in *. induction Hb as [|[k0 e0] c H _ IH]; cbn [map]; constructor; [|exact IH].
     cbn [e_left]. intros E. specialize (H E). lia.
   - rewrite Z.sub_0_r. cbn [step fst cache]. unfold bounded in *.
@@ -260,13 +395,12 @@ Qed.
 
 Lemma step_all_bounded s e : all_bounded (cache s) -> age_ok e -> all_bounded (cache (fst (step s e))).
 Proof.
-  intros Hb Ha. destruct e as [typ mid tok code ro b | ms | ]; cbn [age_of] in *.
+  intros Hb Ha. destruct e as [typ mid tok code ro b | ms | | typ mid | mid | typ tok code o p]; cbn [age_of] in *;
+    try exact Hb.
   - cbn [step].
-    destruct (if is_cacheable_typ typ then cache_load (cache s) mid else None) as [en0|]; [exact Hb|].
-    destruct (handler_result ro b) as [[[rc ro'] rp]|].
-    + destruct (typ =? CON); cbn [fst cache]; [apply all_bounded_store; assumption|].
-      destruct (typ =? NON); [apply all_bounded_store; assumption|exact Hb].
-    + destruct (typ =? CON); cbn [fst cache]; [apply all_bounded_store; assumption|exact Hb].
+    destruct (req_lookup typ mid (cache s)) as [en0|]; cbn [fst cache]; [exact Hb|].
+    destruct (req_store_cases mid (req_handle typ mid tok ro b (req_check typ mid (own s))) (cache s)) as [->|[r0 ->]];
+      [exact Hb|apply all_bounded_store; assumption].
   - cbn [step fst cache]. unfold all_bounded in *. unfold age_ok in Ha. cbn [age_of] in Ha.
     induction Hb as [|[k0 e0] c H _ IH]; cbn [map]; constructor; [cbn [e_left]; lia|exact IH].
   - cbn [step fst cache]. unfold all_bounded in *.
@@ -300,10 +434,9 @@ Proof.
   { unfold cache_load. destruct (lookup (cache (final s evs)) mid) as [en|] eqn:L; [|reflexivity].
     pose proof (bounded_lookup _ _ _ _ Hb L) as Hl. unfold expired.
     destruct (e_left en <? 0) eqn:E; [reflexivity|]. apply Z.ltb_ge in E. lia. }
-  cbn [step]. rewrite Ld.
+  cbn [step]. unfold req_lookup. rewrite Ld.
   assert (Hn : (if is_cacheable_typ typ then @None entry else None) = None) by (destruct (is_cacheable_typ typ); reflexivity).
-  rewrite Hn.
-  destruct (handler_result ro b) as [[[rc ro'] rp]|]; destruct (typ =? CON); reflexivity.
+  rewrite Hn. reflexivity.
 Qed.
 
 (* a copy is never handed to the handler AND answered differently: hit => exactly one datagram *)
@@ -312,9 +445,9 @@ Theorem dedup_hit_or_handled : forall s typ mid tok code ro b,
   o_called o = true \/ (o_called o = false /\ exists r, o_out o = [r] /\ w_mid r = mid).
 Proof.
   intros s typ mid tok code ro b. cbn [step].
-  destruct (if is_cacheable_typ typ then cache_load (cache s) mid else None) as [en|].
+  destruct (req_lookup typ mid (cache s)) as [en|].
   - right. cbn. split; [reflexivity|]. eexists; split; reflexivity.
-  - left. destruct (handler_result ro b) as [[[rc ro'] rp]|]; destruct (typ =? CON); reflexivity.
+  - left. reflexivity.
 Qed.
 
 (* ---------- own message IDs stay away from the peer's ---------- *)
@@ -336,14 +469,13 @@ Qed.
 
 (* ---------- C20 wire clause on the same model ---------- *)
 
-Definition bare_ack (mid : Z) : wire := {| w_typ := ACK; w_code := 0; w_mid := mid; w_tok := []; w_opts := []; w_pay := [] |}.
-
 Theorem wire_suppressed : forall s typ mid tok code ro rc o p,
   (if is_cacheable_typ typ then cache_load (cache s) mid else None) = None ->
   rw_refuses ro rc = true ->
   o_out (snd (step s (Req typ mid tok code ro (BResp rc o p)))) = (if typ =? CON then [bare_ack mid] else []).
 Proof.
-  intros s typ mid tok code ro rc o p Hm Hr. cbn [step]. rewrite Hm. cbn [handler_result]. rewrite Hr.
+  intros s typ mid tok code ro rc o p Hm Hr. cbn [step]. unfold req_lookup. rewrite Hm.
+  unfold req_handle. cbn [handler_result]. rewrite Hr.
   destruct (typ =? CON); reflexivity.
 Qed.
 
@@ -352,6 +484,7 @@ Theorem wire_passed : forall s typ mid tok code ro rc o p,
   rw_refuses ro rc = false ->
   exists r, o_out (snd (step s (Req typ mid tok code ro (BResp rc o p)))) = [r] /\ w_code r = rc /\ w_tok r = tok /\ w_pay r = p.
 Proof.
-  intros s typ mid tok code ro rc o p Hm Hr. cbn [step]. rewrite Hm. cbn [handler_result]. rewrite Hr.
-  destruct (typ =? CON); eexists; split; try reflexivity; repeat split.
+  intros s typ mid tok code ro rc o p Hm Hr. cbn [step]. unfold req_lookup. rewrite Hm.
+  unfold req_handle. cbn [handler_result]. rewrite Hr.
+  destruct (is_special _); destruct (typ =? CON); eexists; split; try reflexivity; repeat split.
 Qed.
